@@ -98,6 +98,19 @@ func c05More() []*Scenario {
 					s.MutDelete("m", bs("e"))
 				},
 			}},
+		{Name: "S12-snapshot-replaced", Desc: "a snapshot is open and the collection was then replaced by SetCollection on the same name: reader [3 lookups through the snapshot] || mutator [Set b, Delete a through the new handle]; the version handle they share must be protected by one lock (lock-discipline check on its reference count)",
+			Setup: func(s *harness.SchedWorld) {
+				setup3(false)(s)
+				s.SeqSnapshotAndReplace("m")
+			},
+			Threads: []func(s *harness.SchedWorld){
+				func(s *harness.SchedWorld) {
+					s.RSnapGet("m", bs("a"))
+					s.RSnapGet("m", bs("c"))
+					s.RSnapGet("m", bs("b"))
+				},
+				func(s *harness.SchedWorld) { s.MutSet("m", bs("b"), 5, bs("b1")); s.MutDelete("m", bs("a")) },
+			}},
 		{Name: "S8-flushes", Desc: "mutator [Set b, Delete a] || flusher [Flush, Flush]",
 			Setup: setup3(false),
 			Threads: []func(s *harness.SchedWorld){
